@@ -547,3 +547,20 @@ def v9(ctx):
                           "%s modifies the calendar it is given (`%s`): the object that is serialised and stored next is not the one that was "
                           "uploaded - re-uploading what GET serves gives different bytes" % (q, bad[0][1] if bad else "")))
     return obs
+
+
+@rule("C14", "V10", floor=2, kind="N",
+      desc="an upload is validated by the class its name selects everywhere: the content type the listing reports and the File "
+           "class chosen to parse a member are both MIMETYPES.guess_type(name) (same obligations as C06/U7) - a case-sensitive "
+           "table makes MEETING.ICS a plain file on update, and the PUT is stored unvalidated")
+def v10(ctx):
+    from .c06 import u7
+    return u7(ctx)
+
+
+@rule("C14", "V11", floor=3, kind="N",
+      desc="uploading what is served changes nothing: the 'unchanged' comparison compares like with like (same obligations as "
+           "C09/K6) - an object id (bytes) compared with an etag (str) is always different, and every re-upload adds a commit")
+def v11(ctx):
+    from .c09 import k6
+    return k6(ctx)
